@@ -187,6 +187,158 @@ pub open spec fn ref_step(op: OpcodeKind, a: RefArg, s: RefState) -> RefState {
     }
 }
 
+/// What the *simulation* has to mirror: STOP ends the program and the simulation does not model
+/// its pop (the reference precondition of STOP -- exactly one object -- is still required).
+pub open spec fn sim_step(op: OpcodeKind, a: RefArg, s: RefState) -> RefState {
+    if op == OpcodeKind::Stop { s } else { ref_step(op, a, s) }
+}
+
+/// memo indices are handed out contiguously from 0 (how the generator guarantees fresh PUT indices)
+pub open spec fn contig(s: RefState) -> bool {
+    s.memo_len >= 0 && forall|k: int| #[trigger] s.memo.dom().contains(k) <==> 0 <= k < s.memo_len
+}
+
+pub type Trace = Seq<(OpcodeKind, RefArg)>;
+
+/// run a trace from s (simulation view: see sim_step)
+pub open spec fn ref_run(s: RefState, t: Trace) -> RefState
+    decreases t.len()
+{
+    if t.len() == 0 { s } else { sim_step(t.last().0, t.last().1, ref_run(s, t.drop_last())) }
+}
+
+/// every step of the trace satisfies the reference preconditions (C01, C02, C03)
+pub open spec fn ref_run_ok(s: RefState, t: Trace) -> bool
+    decreases t.len()
+{
+    t.len() == 0 || (ref_run_ok(s, t.drop_last()) && ref_pre(t.last().0, t.last().1, ref_run(s, t.drop_last())))
+}
+
+pub proof fn lemma_run_push(s: RefState, t: Trace, op: OpcodeKind, a: RefArg)
+    ensures
+        ref_run(s, t.push((op, a))) == sim_step(op, a, ref_run(s, t)),
+        ref_run_ok(s, t.push((op, a))) == (ref_run_ok(s, t) && ref_pre(op, a, ref_run(s, t))),
+{
+    assert(t.push((op, a)).drop_last() =~= t);
+}
+
+pub proof fn lemma_run_concat(s: RefState, t: Trace, u: Trace)
+    ensures
+        ref_run(s, t + u) == ref_run(ref_run(s, t), u),
+        ref_run_ok(s, t + u) == (ref_run_ok(s, t) && ref_run_ok(ref_run(s, t), u)),
+    decreases u.len()
+{
+    if u.len() == 0 {
+        assert(t + u =~= t);
+    } else {
+        lemma_run_concat(s, t, u.drop_last());
+        assert((t + u).drop_last() =~= t + u.drop_last());
+        assert((t + u).last() == u.last());
+    }
+}
+
+/// opcode bytes of a trace of argument-less opcodes
+pub open spec fn codes(t: Trace) -> Seq<u8>
+    decreases t.len()
+{
+    if t.len() == 0 { Seq::empty() } else { codes(t.drop_last()).push(ref_code(t.last().0) as u8) }
+}
+pub proof fn lemma_codes_push(t: Trace, op: OpcodeKind, a: RefArg)
+    ensures codes(t.push((op, a))) == codes(t).push(ref_code(op) as u8)
+{
+    assert(t.push((op, a)).drop_last() =~= t);
+}
+
+/// one TUPLE step of the collapse phase removes exactly one MARK and never grows the stack
+pub proof fn lemma_tuple_step(r0: Seq<Kind>)
+    requires top_mark(r0) >= 0
+    ensures
+        count_marks(r0.subrange(0, top_mark(r0)).push(Kind::Tuple)) == count_marks(r0) - 1,
+        r0.subrange(0, top_mark(r0)).push(Kind::Tuple).len() <= r0.len(),
+{
+    lemma_top_mark_props(r0);
+    lemma_count_marks_cut(r0);
+    lemma_count_marks_push(r0.subrange(0, top_mark(r0)), Kind::Tuple);
+}
+
+/// popping k items from a MARK-free stack and pushing a non-MARK keeps it MARK-free
+pub proof fn lemma_nomark_step(r0: Seq<Kind>, k: int, push: bool)
+    requires count_marks(r0) == 0, 0 <= k <= r0.len()
+    ensures
+        count_marks(r0.subrange(0, r0.len() - k)) == 0,
+        push ==> count_marks(r0.subrange(0, r0.len() - k).push(Kind::Tuple)) == 0,
+        top_mark(r0) < 0,
+{
+    lemma_count_marks_prefix(r0, r0.len() - k);
+    lemma_count_marks_bounds(r0.subrange(0, r0.len() - k));
+    lemma_count_marks_bounds(r0);
+    lemma_count_marks_push(r0.subrange(0, r0.len() - k), Kind::Tuple);
+}
+
+pub open spec fn count_marks(s: Seq<Kind>) -> int
+    decreases s.len()
+{
+    if s.len() == 0 { 0 } else { count_marks(s.drop_last()) + if s.last() == Kind::Mark { 1int } else { 0int } }
+}
+
+pub proof fn lemma_count_marks_bounds(s: Seq<Kind>)
+    ensures 0 <= count_marks(s) <= s.len(), (count_marks(s) > 0) == (top_mark(s) >= 0)
+    decreases s.len()
+{
+    if s.len() > 0 { lemma_count_marks_bounds(s.drop_last()); }
+}
+
+pub proof fn lemma_count_marks_push(s: Seq<Kind>, k: Kind)
+    ensures count_marks(s.push(k)) == count_marks(s) + if k == Kind::Mark { 1int } else { 0int }
+{
+    assert(s.push(k).drop_last() =~= s);
+}
+
+pub proof fn lemma_count_marks_prefix(s: Seq<Kind>, j: int)
+    requires 0 <= j <= s.len()
+    ensures count_marks(s.subrange(0, j)) <= count_marks(s)
+    decreases s.len()
+{
+    if j < s.len() {
+        lemma_count_marks_prefix(s.drop_last(), j);
+        assert(s.drop_last().subrange(0, j) =~= s.subrange(0, j));
+    } else {
+        assert(s.subrange(0, j) =~= s);
+    }
+}
+
+/// cutting the stack at its topmost MARK removes exactly one MARK
+pub proof fn lemma_count_marks_cut(s: Seq<Kind>)
+    requires top_mark(s) >= 0
+    ensures count_marks(s.subrange(0, top_mark(s))) == count_marks(s) - 1
+    decreases s.len()
+{
+    lemma_top_mark_props(s);
+    if s.last() == Kind::Mark {
+        assert(s.subrange(0, top_mark(s)) =~= s.drop_last());
+    } else {
+        lemma_count_marks_cut(s.drop_last());
+        assert(s.drop_last().subrange(0, top_mark(s)) =~= s.subrange(0, top_mark(s)));
+    }
+}
+
+pub proof fn lemma_count_marks_shape(sim: Seq<Kind>, r: Seq<Kind>)
+    requires shape_eq(sim, r)
+    ensures count_marks(sim) == count_marks(r)
+    decreases sim.len()
+{
+    if sim.len() > 0 {
+        assert((sim.last() == Kind::Mark) == (r.last() == Kind::Mark));
+        assert(shape_eq(sim.drop_last(), r.drop_last())) by {
+            assert forall|i: int| 0 <= i < sim.drop_last().len() implies
+                ((#[trigger] sim.drop_last()[i] == Kind::Mark) == (r.drop_last()[i] == Kind::Mark)) by {
+                assert((sim[i] == Kind::Mark) == (r[i] == Kind::Mark));
+            }
+        }
+        lemma_count_marks_shape(sim.drop_last(), r.drop_last());
+    }
+}
+
 // ---------------------------------------------------------------------------------------------
 // Relation between the generator's simulated kinds and the reference state (C17):
 // same depth, same MARK positions, slot-by-slot compatible kinds; same memo index set.
